@@ -297,6 +297,8 @@ class C13(Prop):
         r = rng.random()
         if r < 0.3:
             return ["td", rng.choice([0, 1, 999, 1000, 1500, M, 60 * M, 30 * 86400 * M, D43, D43 - 1,
+                                      # durations of centuries with an odd microsecond (a double cannot hold them)
+                                      2**53 + 1, 2**62 + 1, -(2**55) - 1, 150_000 * 86400 * M + 1, 86_399_999_999_999_999_999,
                                        rng.randint(0, D43), rng.randint(0, 10 * M), -1, -M, -rng.randint(0, D43)])]
         if r < 0.5:
             return ["int", rng.choice([0, 1, 2, 60, 3600, 86400 * 30, D43 // M, rng.randint(0, D43 // M), -1,
